@@ -44,12 +44,27 @@ def lvlArgs (X : Path) : List (Path × Path) :=
   | [] => []
   | l :: r => (l, l) :: r.map fun p => (p, p ++ ['/'])
 
-/-- the absolute paths the metadata found along `X` refers to, in scan order -/
+/-- the absolute paths one port's metadata refers to, seen from the level `lvl` -/
+def metaRefs (m : DepMeta) (lvl : Path) : List Path :=
+  (m.keys.filterMap id).flatMap fun v => (depItems v).map fun it => rel2abs it lvl
+
+/-- the references found at one level: the port's own metadata, then that of the `self:` port of its table -/
+def refsAt (ap : Path → Option DepMeta) (la : Path × Path) : List Path :=
+  (match ap la.2 with
+   | none => []
+   | some m => metaRefs m la.1) ++
+  (match selfMeta ap la.1 with
+   | none => []
+   | some m => metaRefs m la.1)
+
+/-- everything the metadata found along `X` resolves to, in scan order -/
+def rawRefs (ap : Path → Option DepMeta) (X : Path) : List Path :=
+  (lvlArgs X).flatMap (refsAt ap)
+
+/-- the absolute paths the metadata found along `X` refers to, in scan order: a path does not refer to itself
+    (the toggle inside the sub-tree it enables: `rRecur(sub, rEnabledBy(sub/enabled))`) -/
 def refsOf (ap : Path → Option DepMeta) (X : Path) : List Path :=
-  (lvlArgs X).flatMap fun la =>
-    match ap la.2 with
-    | none => []
-    | some m => (m.keys.filterMap id).flatMap fun v => (depItems v).map fun it => rel2abs it la.1
+  (rawRefs ap X).filter fun Y => decide (Y ≠ X)
 
 /-- the dependency metadata is acyclic, and not deeper than the model's recursion budget -/
 def MetaRanked (ap : Path → Option DepMeta) : Prop :=
